@@ -18,12 +18,27 @@ Fixpoint state_eqb (s1 s2 : state term) : bool :=
   | _, _ => false
   end.
 
+(* size of a symbolic state: a circuit with a feedback loop (a wiring defect) never settles and its terms
+   grow exponentially; the search gives up (as it does when the fuel runs out) beyond [size_cap] *)
+Fixpoint tsize (t : term) : N :=
+  match t with
+  | TC _ | TV _ => 1
+  | TA _ a b | TCmp _ a b | TAnd a b | TOr a b => 1 + tsize a + tsize b
+  | TNot a => 1 + tsize a
+  | TIte c a b => 1 + tsize c + tsize a + tsize b
+  end%N.
+Definition state_size (st : state term) : N :=
+  fold_right (fun m acc => fold_right (fun kv acc' => (tsize (snd kv) + acc')%N) acc m) 0%N st.
+Definition size_cap : N := 400000%N.
+
 (* iterate the symbolic step from [st] (= run talg b k) until it repeats *)
 Fixpoint find_fix (b : bp) (fuel : nat) (st : state term) (k : nat) : option (nat * state term) :=
   match fuel with
   | O => None
   | S f => let st' := step talg b st in
-           if state_eqb st' st then Some (k, st') else find_fix b f st' (S k)
+           if state_eqb st' st then Some (k, st')
+           else if N.ltb size_cap (state_size st') then None
+           else find_fix b f st' (S k)
   end.
 
 (* an observation: signal [o_sig] on the red network [o_rn] plus the green network [o_gn] *)
@@ -214,7 +229,8 @@ Proof.
   induction fuel as [|f IH]; intros k0 k st E; cbn [find_fix] in E; [discriminate|].
   destruct (state_eqb (step talg b (run talg b k0)) (run talg b k0)) eqn:Q.
   - inversion E; subst. split; [reflexivity | exact Q].
-  - apply (IH (S k0)). exact E.
+  - destruct (N.ltb size_cap (state_size (step talg b (run talg b k0)))); [discriminate|].
+    apply (IH (S k0)). exact E.
 Qed.
 
 Theorem check_settled_sound b fuel outs k :
